@@ -90,17 +90,25 @@ def a_buffered_matching(ctx, push, proc):
 
 def a_holdback(ctx, push):
     """While the accumulated text ends with a proper prefix of the suffix / a stop sequence, nothing is forwarded: the loop must try every prefix length."""
+    class _Gen:          # a comprehension generator `for v in range(len(X))` presented like a For statement (the element expression is its body)
+        def __init__(self, g, comp):
+            self.target, self.iter, self.lineno, self._comp = g.target, g.iter, comp.lineno, comp
     loops = [l for l in ast.walk(push) if isinstance(l, ast.For) and isinstance(l.iter, ast.Call) and src(l.iter.func) == "range" and l.iter.args
              and isinstance(l.iter.args[-1], ast.Call) and src(l.iter.args[-1].func) == "len"]
+    for comp in [c for c in ast.walk(push) if isinstance(c, (ast.GeneratorExp, ast.ListComp))]:
+        for g in comp.generators:
+            if isinstance(g.iter, ast.Call) and src(g.iter.func) == "range" and g.iter.args and isinstance(g.iter.args[-1], ast.Call) and src(g.iter.args[-1].func) == "len" and not g.ifs:
+                loops.append(_Gen(g, comp))
     ctx.floor("C18.a.holdback", STREAM, "prefix-length loop of the hold-back test", len(loops), 1)
     for l in loops:
         v = src(l.target)
         seq = src(l.iter.args[-1].args[0])
         full_range = len(l.iter.args) == 1 or (len(l.iter.args) == 2 and src(l.iter.args[0]) == "0")
-        slices = [s for s in ast.walk(l) if isinstance(s, ast.Subscript) and src(s.value) == seq and isinstance(s.slice, ast.Slice)]
+        scope = l._comp if isinstance(l, _Gen) else l
+        slices = [s for s in ast.walk(scope) if isinstance(s, ast.Subscript) and src(s.value) == seq and isinstance(s.slice, ast.Slice)]
         ok = full_range and bool(slices) and all((s.slice.lower is None or src(s.slice.lower) == "0") and re.sub(r"\s", "", src(s.slice.upper or ast.Constant(value=None))) == "%s+1" % v
                                                  for s in slices)
-        ends = [c for c in ast.walk(l) if isinstance(c, ast.Call) and isinstance(c.func, ast.Attribute) and c.func.attr == "endswith" and src(c.func.value) == "self.current_chunk"]
+        ends = [c for c in ast.walk(scope) if isinstance(c, ast.Call) and isinstance(c.func, ast.Attribute) and c.func.attr == "endswith" and src(c.func.value) == "self.current_chunk"]
         ok = ok and bool(ends)
         ctx.check("C18.a.holdback", STREAM, "StreamingHandler.push_chunk", "for %s in %s" % (v, first_line(l.iter, 40)), ok,
                   "every proper prefix `%s[0:k]`, k = 1..len, is tried against the end of the accumulated text" % seq if ok else
